@@ -21,7 +21,7 @@ REQUIRED_COUNTERS = ["sessions", "close_injected", "state_samples_after_close", 
 SHARD_TIMEOUT = {"quick": 400, "thorough": 3000}
 
 SHAPES = ("plain", "refusing", "slow_transport", "fault_reconnect", "slow_receive_cb", "send", "after_close_calls",
-          "send_fault_read_silent", "send_write_error", "double_close", "double_connect", "never_connected", "callbacks_replaced")
+          "send_fault_read_silent", "send_write_error", "double_close", "double_connect", "never_connected", "callbacks_replaced", "send_peer_stopped_reading")
 
 
 def shards(tier, seed):
@@ -99,6 +99,14 @@ def session(kind, shape, step, scb, bystander=False, cb_style="method"):
             for _ in range(3):
                 sim.spawn("send", make_send_message(kind))
                 await asyncio.sleep(0.01)
+        if shape == "send_peer_stopped_reading":
+            # the gateway stops reading for good: a send() stays suspended in drain() until the link goes
+            await asyncio.sleep(0.1)
+            if sim.conns and kind != "actisense":
+                sim.conns[-1].pause_plan = [10 ** 9]
+                for _ in range(2):
+                    sim.spawn("send", make_send_message(kind))
+                    await asyncio.sleep(0.01)
         if shape == "send_fault_read_silent":
             # only the write direction of the link breaks (drain() raises, nothing arrives on the read side): the
             # reconnect then finds the previous receive path still alive. Harsher than what asyncio's own transports
